@@ -26,7 +26,7 @@ func init() {
 		Level: "exploration",
 		Modes: []Mode{{Name: "traffic", Weight: 1}},
 		Gen:   genC01, Run: runC01,
-		QuickRuns: 3000, ThoroughRuns: 40000,
+		QuickRuns: 3000, ThoroughRuns: 60000,
 		Rule: "plan = (transport, recovery on/off, MaxBufferSize, 1..3 clients, per-name argument shape, emitter tasks with timed emissions incl. size targets at 0/1/125/126/32767..32769/65535/65536/limit-1/limit, network latency/jitter/chunking, stall parameters) from VERIF_SEED; " +
 			"non-trivial = at least 5 emissions in each direction were checked and at least two emitter tasks overlapped in time; distinct = distinct history digest among those",
 		Assumptions: []string{
